@@ -149,7 +149,7 @@ def lean_block(stmts, ind):
     if s[0] == "ret":
         if rest:
             raise TranslateError("statement after return")
-        return '(Block.ret "%s")' % s[1]
+        return "(Block.ret Kind.%s)" % s[1]
     pad = " " * ind
     return "(Block.chain\n%s%s\n%s%s)" % (pad, lean_branches(s[1], ind + 1), pad, lean_block(rest, ind + 1))
 
@@ -158,7 +158,7 @@ def lean_branches(brs, ind):
     if not brs:
         return "Branches.nil"
     pos, ch, guards, body = brs[0]
-    gs = "[" + ", ".join(('Guard.stdGE %d' % STD[g[1]]) if g[0] == "std" else ('Guard.flag "%s"' % g[1]) for g in guards) + "]"
+    gs = "[" + ", ".join(('Guard.stdGE %d' % STD[g[1]]) if g[0] == "std" else ('Guard.flag .%s' % g[1]) for g in guards) + "]"
     pad = " " * ind
     return "(Branches.cons %d %d %s %s\n%s%s)" % (pos, ch, gs, lean_block(body, ind + 1), pad, lean_branches(brs[1:], ind))
 
@@ -179,14 +179,13 @@ def flags_of(funcs):
 
 
 def emit(funcs, disp):
-    L = ["/-! GENERATED by translators/keywords.py from C/parser/Keywords.cpp — do not edit. -/",
-         "import PsycheModel.KeywordTrie", "namespace PsycheModel.Generated.Keywords", "open PsycheModel.KeywordTrie", ""]
+    L = ["import PsycheModel.KeywordTrie",
+         "/-! GENERATED by translators/keywords.py from C/parser/Keywords.cpp — do not edit. -/", "namespace PsycheModel.Generated.Keywords", "open PsycheModel.KeywordTrie PsycheModel.Generated", ""]
     for (kind, n) in sorted(funcs):
         L.append("def %s%d : Block :=\n  %s\n" % (kind, n, lean_block(funcs[(kind, n)], 2)))
     for kind in ("recognize", "translate"):
         L.append("/-- `Lexer::%s`: the `switch (n)` dispatcher as (length, function) pairs -/" % kind)
         L.append("def %sTable : List (Nat × Block) :=\n  [%s]\n" % (kind, ", ".join("(%d, %s%d)" % (n, kind, f) for n, f in sorted(disp[kind].items()))))
-    L.append("def flagNames : List String := [%s]" % ", ".join('"%s"' % f for f in flags_of(funcs)))
     L.append("\nend PsycheModel.Generated.Keywords")
     return "\n".join(L) + "\n"
 
